@@ -108,6 +108,14 @@ def extra_checks(run):
             print("KNOWN-FINDING: property=C10 K-C10-race data race, unlocked wrapper read vs locked write: %s" % desc[:220])
         if len(known) > 8:
             print("KNOWN-FINDING: property=C10 K-C10-race ... and %d more race reports of the same call-site class" % (len(known) - 8))
-        for k, desc in enumerate(sorted(viol)[:5]):
-            res.append(("race-%d" % k, "data race outside the known call-site class: %s" % desc, "cmd: GORACE=exitcode=0 %s\n\n%s\n" % (" ".join(cmd), viol[desc])))
+        # report one representative per call-site class (the function that should have held the lock), at most 8
+        picked = {}
+        for desc in sorted(viol):
+            parts = desc.split(" / ")
+            site = lambda p: next((f for f in p.split(" in ", 1)[-1].split(" <- ") if f in LOCKED_WRITERS), p.split(" in ", 1)[-1].split(" <- ")[0])
+            key = tuple(sorted((p.split(" ")[0], site(p)) for p in parts if p.startswith("read"))) or ("write/write", site(parts[0]))
+            picked.setdefault(key, desc)
+        for k, desc in enumerate(list(picked.values())[:8]):
+            res.append(("race-%d" % k, "data race outside the known call-site class (%d such reports in all): %s" % (len(viol), desc),
+                        "cmd: GORACE=exitcode=0 %s\n\n%s\n" % (" ".join(cmd), viol[desc])))
     return res
